@@ -34,6 +34,13 @@ func init() {
 			"regexp/syntax.Parse with Perl flags is what regexp.MustCompile accepts",
 		},
 		Mutants: []Mutant{
+			{ID: "C17-onx-generic-send-command", Desc: "the network hook's send-command step calls the embedded generic driver's SendCommand", Rule: "C17/onx-send-command",
+				Edits: []Edit{{File: "platform/onx.go", Old: "_, err = d.SendCommand(c)", New: "_, err = d.Driver.SendCommand(c)"}}},
+			{ID: "C17-default-level-only-with-levels", Desc: "a variant's default desired level is merged only when it also redefines the privilege levels", Rule: "C17/merge",
+				Edits: []Edit{{File: "platform/definition.go", Old: "\tif len(v.PrivilegeLevels) > 0 {\n\t\tp.PrivilegeLevels = v.PrivilegeLevels\n\t}\n\n\tif v.DefaultDesiredPrivilegeLevel != \"\" {\n\t\tp.DefaultDesiredPrivilegeLevel = v.DefaultDesiredPrivilegeLevel\n\t}\n", New: "\tif len(v.PrivilegeLevels) > 0 {\n\t\tp.PrivilegeLevels = v.PrivilegeLevels\n\n\t\tif v.DefaultDesiredPrivilegeLevel != \"\" {\n\t\t\tp.DefaultDesiredPrivilegeLevel = v.DefaultDesiredPrivilegeLevel\n\t\t}\n\t}\n"}}},
+			{ID: "C17-seconds-helper-truncates", Desc: "the definition's timeout-ops goes through a helper that converts the float before scaling it", Rule: "C17/float-scaled-first",
+				Edits: []Edit{{File: "platform/options.go", Old: "\t\t\topts[i] = options.WithTimeoutOps(\n\t\t\t\ttime.Duration(floatVal * float64(time.Second)),\n\t\t\t)", New: "\t\t\topts[i] = options.WithTimeoutOps(secondsOf(floatVal))"},
+					{File: "platform/options.go", Old: "type optionDefinitions []*optionDefinition\n", New: "type optionDefinitions []*optionDefinition\n\nfunc secondsOf(f float64) time.Duration {\n\treturn time.Duration(f) * time.Second\n}\n"}}},
 			{ID: "C17-on-open-doubles-as-network-on-open", Desc: "a network platform without network-on-open gets its on-open list as network on-open too (run twice)", Rule: "C17/as-options-wiring",
 				Edits: []Edit{{File: "platform/definition.go", Old: "\tif len(p.NetworkOnOpen) > 0 {\n\t\topts = append(opts, options.WithNetworkOnOpen(p.NetworkOnOpen.asNetworkOnX()))\n\t}", New: "\tnetworkOnOpen := p.NetworkOnOpen\n\tif len(networkOnOpen) == 0 {\n\t\tnetworkOnOpen = p.OnOpen\n\t}\n\n\tif len(networkOnOpen) > 0 {\n\t\topts = append(opts, options.WithNetworkOnOpen(networkOnOpen.asNetworkOnX()))\n\t}"}}},
 			{ID: "C17-empty-input-waits-for-echo", Desc: "ReadUntilFuzzy no longer returns at once for an empty input (cumulus root_login steps with an empty command)", Rule: "C17/empty-step",
@@ -100,6 +107,12 @@ func runC17(c *Ctx, r *Report) {
 	r.Rule("C17/graph-links", "the driver's privilege graph links every level of the definition with its previous level in both directions (levels without an escalate command remain starting points)", 2)
 	r.Rule("C17/fresh-definition", "the platform package modifies no package-level variable at run time: each load yields its own Definition / Platform objects", 1)
 	r.Rule("C17/options", "every option block entry uses an option name platform/options.go switches on, with a YAML value whose Go dynamic type is the one the code asserts", 1)
+	r.Rule("C17/globals-immutable", "(restated from C07) no package-level variable of the library is written at run time: loading definitions from several goroutines shares no mutable cache", 1)
+	importObligations(r, func(sub *Report) { checkGlobalsNotWrittenAtRunTime(c, sub, "C07/globals-immutable") }, "C07/globals-immutable", "C17/globals-immutable")
+	r.Rule("C17/onx-send-command", "the send-command step of a platform hook calls the SendCommand of the driver kind it was built for, with no per-operation options of its own", 2)
+	checkOnXSendCommand(c, r, "C17/onx-send-command")
+	r.Rule("C17/float-scaled-first", "a definition's fractional seconds (read-delay, timeout-ops) are scaled before they are converted: the options a definition carries take effect with the value it states", 1)
+	checkFloatScaledBeforeConversion(c, r, "C17/float-scaled-first")
 	r.Rule("C17/as-options-wiring", "AsOptions builds each driver option from the definition field of the same name and from nothing else, once", 7)
 	checkAsOptionsWiring(c, r, "C17/as-options-wiring")
 	r.Rule("C17/merge", "mergeVariant assigns each mergeable section only from the same section of the variant, guarded by that section's non-empty test; all eight sections are merged", 8)
@@ -745,6 +758,24 @@ func checkMergeVariant(c *Ctx, r *Report) {
 				}
 				if !guarded {
 					r.Bad("C17/merge", construct, c.Pos(s.Pos()), fmt.Sprintf("p.%s = v.%s is not guarded by a test of v.%s: a variant that does not define the section erases it", lf.Name(), rf.Name(), lf.Name()))
+					continue
+				}
+				// ... and by no condition over another section of the variant: each section is merged on its own
+				foreign := ""
+				for _, cd := range conds {
+					ast.Inspect(cd, func(n ast.Node) bool {
+						if e, ok := n.(ast.Expr); ok {
+							if f := selField(p, e); f != nil && f != lf && want[f.Name()] {
+								if se, isSel := ast.Unparen(e).(*ast.SelectorExpr); isSel && identObj(p, se.X) == paramObj {
+									foreign = f.Name()
+								}
+							}
+						}
+						return true
+					})
+				}
+				if foreign != "" {
+					r.Bad("C17/merge", construct, c.Pos(s.Pos()), fmt.Sprintf("p.%s = v.%s additionally depends on the variant's %s: a variant that overrides only %s (and inherits the rest) has no effect", lf.Name(), rf.Name(), foreign, lf.Name()))
 					continue
 				}
 				merged[lf.Name()] = true
